@@ -422,7 +422,7 @@ def greater_equal(x, y):
 
 
 def isfinite(x):
-    return logical_not(isinf(x))
+    return _unary(x.dtype._ops.isfinite, x)
 
 
 def isinf(x):
